@@ -24,11 +24,22 @@ def candidates(line):
     """(description, new line) for every applicable one-token mutation of a source line."""
     out = []
     s = line
-    if s.strip().startswith("//") or "vhook(" in s or s.strip().startswith("case ") and "," in s:
+    comment = ""
+    if "//" in s and '"' not in s:          # mutate code only, never comment text
+        k = s.index("//")
+        s, comment = s[:k], s[k:]
+    out_raw = out
+    if s.strip() == "" or s.strip().startswith("//") or "vhook(" in s or s.strip().startswith("case ") and "," in s:
         return out
     def sub(pat, rep, desc, count=1):
         for m in list(re.finditer(pat, s))[:2]:
             new = s[:m.start()] + (rep(m) if callable(rep) else rep) + s[m.end():]
+            if new != s:
+                out.append((desc, new))
+    # operators aimed at the control logic (cpu.go, memio.go, tinycpm)
+    def sub2(pat, rep, desc):
+        for m in list(re.finditer(pat, s))[:2]:
+            new = s[:m.start()] + rep + s[m.end():]
             if new != s:
                 out.append((desc, new))
     sub(r"\.Hi\b", ".Lo", "Hi->Lo")
@@ -58,6 +69,27 @@ def candidates(line):
     sub(r"<< ?1\b", "<< 2", "<<1 -> <<2")
     sub(r"\btrue\b", "false", "true->false")
     sub(r"\bfalse\b", "true", "false->true")
+    sub2(r"\bNMIType\b", "IMType", "NMIType->IMType")
+    sub2(r"\bIMType\b", "NMIType", "IMType->NMIType")
+    sub2(r"0x0066\b", "0x0038", "66->38")
+    sub2(r"0x0038\b", "0x0066", "38->66")
+    sub2(r"\bcase 1\b", "case 2", "case1->2")
+    sub2(r"\bcase 2\b", "case 1", "case2->1")
+    sub2(r" < ", " <= ", "< -> <=")
+    sub2(r" <= ", " < ", "<= -> <")
+    sub2(r" > ", " >= ", "> -> >=")
+    sub2(r" >= ", " > ", ">= -> >")
+    sub2(r"\breturn true\b", "return false", "return true->false")
+    sub2(r"\breturn false\b", "return true", "return false->true")
+    sub2(r"\bcontinue\b", "break", "continue->break")
+    sub2(r"\+ 2\b", "+ 1", "+2 -> +1")
+    sub2(r"\+ 3\b", "+ 2", "+3 -> +2")
+    sub2(r"& 0xfe\b", "& 0xff", "&fe -> &ff")
+    sub2(r"\bData\[0\]", "Data[len(cpu.Interrupt.Data)-1]", "Data[0] -> Data[last]")
+    sub2(r"\bcpu\.PC\b", "cpu.SP", "PC->SP")
+    sub2(r"0xff\b", "0xfe", "ff->fe")
+    sub2(r"\b9\b", "2", "9->2")
+    sub2(r"'\$'", "0", "'$'->0")
     for m in re.finditer(r"\bmask(C|N|PV|H|Z|S|3|5|S53|53)\b", s):
         for other in MASKS:
             if other != m.group(0) and random.random() < 0.15:
@@ -74,7 +106,7 @@ def candidates(line):
     if m:
         nb = (int(m.group(2)) + 1) % 8
         out.append(("bit %s -> %d" % (m.group(2), nb), s[:m.start(2)] + str(nb) + s[m.end(2):]))
-    return out
+    return [(d, n + comment) for d, n in out]
 
 
 def sh(cmd, cwd, timeout=1800):
@@ -88,6 +120,7 @@ def main():
     ap.add_argument("--seed", type=int, default=1)
     ap.add_argument("--checks", default="C01 C02 C03 C04 C05 C14 C11 C09 C06")
     ap.add_argument("--out", default=os.path.join(VERIF, "tools", "mutation_results.json"))
+    ap.add_argument("--files", default=" ".join(FILES))
     a = ap.parse_args()
     random.seed(a.seed)
     wt = tempfile.mkdtemp(prefix="verif-mut-")
@@ -96,7 +129,7 @@ def main():
     results = []
     try:
         pool = []
-        for f in FILES:
+        for f in a.files.split():
             lines = open(os.path.join(wt, f)).read().split("\n")
             for i, ln in enumerate(lines):
                 for desc, new in candidates(ln):
